@@ -18,6 +18,22 @@ def avalObs : AVal → Option String
 def absHasGroup (a : Abs) : Bool :=
   (a.h ++ a.b ++ a.t).any (fun p => match p.2 with | .grp _ _ => true | _ => false)
 
+/-- header fields, then body fields, then trailer fields (repeated tags allowed: repeating groups) -/
+def sectionsSorted (d : Dicts) (fs : List WField) : Bool :=
+  let rank (t : Int) : Nat := match secOf d t with | .h => 0 | .b => 1 | .t => 2
+  let rs := fs.map (fun f => rank ((tagNum f.tagText).getD 0))
+  (rs.zip (rs.drop 1)).all (fun p => p.1 ≤ p.2)
+
+/-- a further header field follows MsgType (as in every message a session builds and stores) -/
+def headerAfterMsgType (d : Dicts) (fs : List WField) : Bool :=
+  match fs[3]? with
+  | some f => secOf d ((tagNum f.tagText).getD 0) == .h
+  | none => false
+
+/-- the bytes of the body fields, in wire order -/
+def bodyRaw (d : Dicts) (fs : List WField) : Bytes :=
+  (fs.filter (fun f => secOf d ((tagNum f.tagText).getD 0) == .b)).flatMap (·.raw)
+
 /-- header fields, then body fields, then trailer fields; no tag twice -/
 def sectionsInOrder (d : Dicts) (fs : List WField) : Bool :=
   let ts := fs.map (fun f => (tagNum f.tagText).getD 0)
@@ -116,7 +132,19 @@ def codecMonStep (st : MonSt) (w : List String) : MonSt × String :=
               let claim := match scanFields wr with
                            | some fs => wfScanned fs && sectionsInOrder d fs && !(fs.any (fun f => tagNum f.tagText == some 212))
                            | none => false
-              out (st, if claim && !wireWF b then [s!"c03_rebuild_wf\{dict={modeKind mode}}"] else [])
+              -- the body of the rebuilt message (what a resend transmits) is byte for byte the body that was parsed
+              let bodySame := match scanFields wr, scanFields b with
+                | some fs, some gs =>
+                  -- (claimed for messages shaped like the ones a session stores: further header fields follow MsgType —
+                  --  doParsing records the start of the body while it walks those; with none, bodyBytes stays unset, both in
+                  --  the code and in the model, which no stored message can show)
+                  !(wfScanned fs && sectionsSorted d fs && !(fs.any (fun f => tagNum f.tagText == some 212)) && !tenMember d
+                    && headerAfterMsgType d fs)
+                  || bodyRaw d gs == bodyRaw d fs
+                | some fs, none => !(wfScanned fs && sectionsSorted d fs)
+                | none, _ => true
+              out (st, (if claim && !wireWF b then [s!"c03_rebuild_wf\{dict={modeKind mode}}"] else [])
+                       ++ (if bodySame then [] else [s!"c03_rebuild_body\{dict={modeKind mode}}"]))
             | none =>
               match st.parsedFrom, st.abs with
               | some mode, some a =>
